@@ -7,6 +7,7 @@ import GtirbVerif.Spec.FlatCfg
 import GtirbVerif.Spec.FuncCheck
 import GtirbVerif.Spec.WellFormed
 import GtirbVerif.Spec.CfiCheck
+import GtirbVerif.Spec.Scopes
 
 /-! JSON <-> abstract IR (the canonical dump produced by harness/irdump.py). -/
 namespace Driver.IRJson
@@ -337,6 +338,40 @@ def handleListing (op : String) (j : Json) : Option (Except String Json) :=
                 kind := GtirbVerif.FlatCfg.Kind.fromCode (← (t[2]!).getNat?) } : GtirbVerif.FlatCfg.Insn))
       pure (b, l))
     .ok (Json.mkObj [("C08", issuesJ (checkCfi before after edits nop (← rowsOf "rows_before") (← rowsOf "rows_after") insns))])
+  | "scope_check" => some do
+    let ir ← irOf (← j.getObjVal? "ir")
+    let funcs ← (← arr j "funcs").mapM (fun p => do
+      let a ← p.getArr?
+      pure ({ id := ← (← at' a 0).getNat?, name := ← (← at' a 1).getStr? } : GtirbVerif.Scopes.Func))
+    let insns ← (← arr j "insns").mapM (fun p => do
+      let a ← p.getArr?
+      pure ((← (← at' a 0).getNat?), (← (← (← at' a 1).getArr?).toList.mapM (·.getNat?))))
+    let posOf (s : String) : GtirbVerif.Scopes.Pos := if s == "entry" then .entry else if s == "exit" then .exit else .anywhere
+    let patsOf (v : Json) : Except String (Option (List GtirbVerif.Scopes.Pat)) :=
+      match v with
+      | Json.null => pure none
+      | Json.arr a => do
+        let l ← a.toList.mapM (fun q => do
+          match q.getObjVal? "lit", q.getObjVal? "prefix", q.getObjVal? "main", q.getObjVal? "entrypoint" with
+          | .ok (Json.str n), _, _, _ => pure (GtirbVerif.Scopes.Pat.lit n)
+          | _, .ok (Json.str n), _, _ => pure (GtirbVerif.Scopes.Pat.prefix n)
+          | _, _, .ok _, _ => pure GtirbVerif.Scopes.Pat.main
+          | _, _, _, .ok _ => pure GtirbVerif.Scopes.Pat.entrypoint
+          | _, _, _, _ => throw "bad pattern")
+        pure (some l)
+      | _ => throw "bad pattern list"
+    let regs ← (← arr j "regs").mapM (fun r => do
+      let kind ← getStr r "kind"
+      match kind with
+      | "all_blocks" => pure (GtirbVerif.Scopes.Scope.allBlocks (posOf (← getStr r "pos")) (← patsOf ((r.getObjVal? "exclude").toOption.getD Json.null)))
+      | "single" => pure (GtirbVerif.Scopes.Scope.single (← getNat r "block") (posOf (← getStr r "pos")))
+      | "all_functions" => pure (GtirbVerif.Scopes.Scope.allFunctions ((← getStr r "fpos") == "entry") (posOf (← getStr r "pos"))
+          (← patsOf ((r.getObjVal? "functions").toOption.getD Json.null)))
+      | "at" => pure (GtirbVerif.Scopes.Scope.atOffset (← getNat r "block") (← getNat r "off"))
+      | k => throw s!"unknown scope kind {k}")
+    let inv := GtirbVerif.Scopes.expectedInvocations ir funcs insns regs
+    .ok (Json.mkObj [("invocations", Json.arr (inv.map (fun v => Json.arr #[toJson v.reg, toJson v.block, toJson v.off,
+      match v.func with | some f => toJson f | none => Json.null])).toArray)])
   | _ => none
 
 end Driver.IRJson
